@@ -3,6 +3,7 @@ package main
 import (
 	"fmt"
 	"go/constant"
+	"go/types"
 	"sort"
 
 	"golang.org/x/tools/go/ssa"
@@ -230,8 +231,8 @@ func ruleCode128Encoder(c *Ctx) {
 	for _, b := range fn.Blocks {
 		var phis []*ssa.Phi
 		for _, ins := range b.Instrs {
-			if p, ok := ins.(*ssa.Phi); ok {
-				phis = append(phis, p)
+			if p, ok := ins.(*ssa.Phi); ok && isIntType(p.Type()) {
+				phis = append(phis, p) // (a symbol list kept in a slice variable is not loop state of interest)
 			}
 		}
 		if len(phis) == 2 && hdr == nil && len(b.Succs) == 2 {
@@ -253,17 +254,49 @@ func ruleCode128Encoder(c *Ctx) {
 	body := hdr.Succs[0]
 	addByte := c.P.Func("utils.(*BitList).AddByte")
 	emit := map[int64]*Cond{}
-	var valueCalls []*ssa.Call
+	// an emission: AddByte(v) on the symbol list, or append(list, v) when the symbols are collected in a
+	// byte slice
+	type emission struct {
+		call *ssa.Call
+		val  ssa.Value
+	}
+	var valueCalls []emission
+	var sites []DeepSite
+	vals := map[ssa.Instruction]ssa.Value{}
 	for _, site := range c.P.deepCallsTo(fn, addByte) {
+		sites = append(sites, site)
+		vals[site.Ins] = site.Ins.(*ssa.Call).Common().Args[1]
+	}
+	if len(sites) == 0 {
+		c.P.deepEach(fn, 2, func(s DeepSite) {
+			call, ok := s.Ins.(*ssa.Call)
+			if !ok {
+				return
+			}
+			if bi, isB := call.Common().Value.(*ssa.Builtin); !isB || bi.Name() != "append" || len(call.Common().Args) != 2 {
+				return
+			}
+			if sl, isSl := call.Type().Underlying().(*types.Slice); !isSl || !isIntType(sl.Elem()) {
+				return
+			}
+			if el := variadicElems(call.Common().Args[1]); len(el) == 1 {
+				if sz, _ := intSize(el[0].Type()); sz == 8 {
+					sites = append(sites, s)
+					vals[s.Ins] = el[0]
+				}
+			}
+		})
+	}
+	for _, site := range sites {
 		call := site.Ins.(*ssa.Call)
-		if k, ok := n.NormAt(site, call.Common().Args[1]).IsConst(); ok {
+		if k, ok := n.NormAt(site, vals[site.Ins]).IsConst(); ok {
 			rc := n.ReachCondDeep(fn, body, site)
 			if old, ok := emit[k]; ok {
 				rc = cOr(old, rc)
 			}
 			emit[k] = rc
 		} else if site.Fn == fn {
-			valueCalls = append(valueCalls, call)
+			valueCalls = append(valueCalls, emission{call, vals[site.Ins]})
 		}
 	}
 	sets := []struct {
@@ -296,8 +329,8 @@ func ruleCode128Encoder(c *Ctx) {
 	aT, _ := c.P.ConstString("code128", "aTable")
 	bT, _ := c.P.ConstString("code128", "bTable")
 	seenSets := map[string]bool{}
-	for _, call := range valueCalls {
-		arg := call.Common().Args[1]
+	for _, em := range valueCalls {
+		call, arg := em.call, em.val
 		if cv, ok := arg.(*ssa.Convert); ok {
 			arg = cv.X
 		}
@@ -318,12 +351,21 @@ func ruleCode128Encoder(c *Ctx) {
 		for name, val := range fnc {
 			arm, err := PhiArm(n, fn, phi, from, "r", val)
 			if err != nil {
+				// the function characters looked up in a package-level table
+				if _, v, err2 := phiArmFold(n, fn, phi, from, "r", val); err2 == nil {
+					arms[name] = v.String()
+					continue
+				}
 				c.Undecided(R6, "code128.getCodeIndexList/fnc-table", phi.Pos(), err.Error())
 				continue
 			}
 			arms[name] = n.Norm(phi.Edges[arm]).String()
 		}
-		if arm, err := PhiArm(n, fn, phi, from, "r", 65); err == nil {
+		armA, errA := PhiArm(n, fn, phi, from, "r", 65)
+		if errA != nil {
+			armA, _, errA = phiArmFold(n, fn, phi, from, "r", 65)
+		}
+		if arm, err := armA, errA; err == nil {
 			if ir, ok := phi.Edges[arm].(*ssa.Call); ok && calleeFull(ir) == "strings.IndexRune" {
 				if k, ok := ir.Common().Args[0].(*ssa.Const); ok && k.Value != nil {
 					switch constant.StringVal(k.Value) {
